@@ -10,6 +10,11 @@
 //   vpart       product_value_partitioning_domain<zones>; a partition on x is started
 //               before every assignment of a constant to x (intrinsic
 //               value_partition_start), which is a concrete no-op
+// Release configuration (the default CMAKE_BUILD_TYPE of crab): assert() is compiled out.
+// With assertions on, split_oct aborts on `top || x` (assert(left.m_potential.size() > 0)).
+#ifndef NDEBUG
+#define NDEBUG
+#endif
 #include "domhist.hpp"
 #include <crab/domains/intervals.hpp>
 #include <crab/domains/split_dbm.hpp>
